@@ -25,6 +25,9 @@ def scratch_one(d):
     return d, pid, r.returncode, r.stdout + r.stderr, dt, f'scratch worktree of /repo with the patch applied, RS_REPO pointing at it, private copy of /verif'
 
 
+FIELD = ([a.split('=')[1] for a in sys.argv[1:] if a.startswith('--field=')] or ['verif'])[0]
+
+
 def record(d, pid, rc, out, dt, how):
     fired = rc == 1 and ('VIOLATION property=' + pid) in out
     keys = re.findall(r'violations by key: (\{.*\})', out)
@@ -35,7 +38,7 @@ def record(d, pid, rc, out, dt, how):
         meta = json.load(open(mp))
     except Exception:
         meta = {}
-    meta['verif'] = {'applied_with': how, 'check': f'python3 checks/run_check.py {pid} --tier quick', 'exit': rc,
+    meta[FIELD] = {'seed': os.environ.get('VERIF_SEED', '1'), 'applied_with': how, 'check': f'python3 checks/run_check.py {pid} --tier quick', 'exit': rc,
                      'detected': bool(fired), 'violations_by_key': keys[0] if keys else None, 'first_report': first, 'wall_s': round(dt, 1)}
     json.dump(meta, open(mp, 'w'), indent=1)
     return fired
@@ -72,7 +75,8 @@ def main():
                 print((d, pid, 'DETECTED' if ok else 'missed', round(dt)), flush=True)
                 if not ok:
                     missed.append(d)
-        write_table()
+        if FIELD == 'verif':
+            write_table()
         print('missed:', missed)
         return
     st = sh('git -C /repo status --porcelain --untracked-files=no').stdout.strip()
